@@ -53,6 +53,13 @@ CLAIMS = {
              "explanation under every following constraint sequence, contradictions becoming conflicts.",
         note="Partial: the doc-comment grammar (regexp) and the lookup of names in declarations are outside. Type-default predicates are symbolic Booleans under symx, real types natively.",
     ),
+    "C04": dict(
+        text="For every iteration order of the Go maps ranged over inside ObservedMap.Range/ObserveAnnotations and activateControlledTriggers, and for both arrival orders of two dependency facts in "
+             "ObserveUpstream, the insertion-ordered inferred map (which determines the exported fact's bytes) is identical; scalar values are symbolic. Map order is an explicit choice point of the executor, "
+             "so 'every order' is explored, not sampled.",
+        note="Partial: goroutine scheduling (C16) and map iteration inside AST-walking code are outside; the gob encoder is trusted. Found and fixed (two fix: commits): annotation replay order and "
+             "controlled-trigger activation order were map-iteration dependent.",
+    ),
 }
 
 # reasons for every property not (yet) claimed
@@ -61,5 +68,5 @@ NOT_APPLICABLE = {
     "C16": "The quantifier is goroutine interleavings over the whole analysis heap; symx has no thread model and no installed solver-based engine explores Go schedules.",
     "C18": "Everything the property depends on is environment (process cwd captured at init, filepath.Rel, driver cwd); after stubbing those by contract the residual repo code is a one-line wrapper.",
 }
-for _p in ["C02", "C04", "C07", "C08", "C09", "C14", "C15", "C17", "C20"]:
+for _p in ["C02", "C07", "C08", "C09", "C14", "C15", "C17", "C20"]:
     NOT_APPLICABLE.setdefault(_p, "kernel check not yet registered (in progress; see DESIGN.md section 4)")
